@@ -272,7 +272,14 @@ func (a *scratchAnalysis) flowClosure(cl *ssa.Function, fv ssa.Value, viaCell bo
 }
 
 func init() {
-	registerHook("C03", func(c *checkCtx) {
+	registerHook("C03", scratchHook)
+	// the same discipline is what makes a checker's diagnostics for one function independent of the functions analysed
+	// before it in the same file (C13: reordering and padding declarations)
+	registerHook("C13", scratchHook)
+}
+
+func scratchHook(c *checkCtx) {
+	{
 		e := c.e
 		// group methods by receiver type
 		byType := map[*types.Named][]*ssa.Function{}
@@ -414,5 +421,5 @@ func init() {
 		}
 		c.extraEv["scratch_state"] = map[string]interface{}{"checker_types_with_scratch_fields": nTypes, "scratch_fields": nFields,
 			"decided_by": "exhaustive forward data-flow over the SSA of the type's methods (definite re-initialisation before read); no solver"}
-	})
+	}
 }
